@@ -163,9 +163,48 @@ CLAIMED.update({
             "DESIGN.md 4.13, 5 (C19)", "expr"),
 })
 
+_FN_NOTE = ("Trusted: the per-property definition of abstract key and value in the driver, harness/project.py (abstract "
+            "values), TLC. The specification is a write-once register: exploration power is in the generators.")
+CLAIMED.update({
+    "C07": ("exploration",
+            "TLA+ write-once map Functional.tla (model checked) validated by TLC (FunctionalTrace) over observations from real "
+            "sub-processes under different PYTHONHASHSEED values, repeated in-process calls and before/after snapshots",
+            "(files, argv) -> (stdout digest, exit status) must be one value across processes started with hash seeds "
+            "0..3 (0..7 thorough) for pairs biased to mappings with many unshared keys (incl. strategy none and -e); "
+            "structural snapshots of both input trees must be unchanged by diff(), edits()+refinement and "
+            "get_all_edits(), and a second diff() must reproduce cost and rendering.",
+            _FN_NOTE + " Object addresses cannot be scheduled from outside the interpreter.", "DESIGN.md 4.11, 5 (C07)", "functional"),
+    "C08": ("exploration",
+            "TLA+ write-once map Functional.tla keyed by abstract inputs, validated by TLC over all / sampled key permutations; "
+            "EditScript C02 clauses for permuted-equal and swapped-list pairs",
+            "For each base pair and dictionary strategy every key-order variant (all permutations up to a bound, both "
+            "documents, all depths) must give the same canonical script: cost plus pairings/removals/insertions named "
+            "by key paths. A document vs its permuted copy costs 0; swapping unequal list elements costs > 0.",
+            _FN_NOTE, "DESIGN.md 4.11, 5 (C08)", "functional"),
+    "C09": ("exploration",
+            "TLA+ write-once map Functional.tla validated by TLC over the abstract value per input format, diff costs and exit "
+            "statuses for all 16 ordered format pairs, and costs against a third document",
+            "Data of the common domain is written by reference writers (json, yaml.safe_dump, plistlib) and loaded by "
+            "graphtage; the abstract value must be one per data, every ordered format pair must diff to cost 0 / exit 0, "
+            "and the cost against a third document must not depend on the format pair. One known finding (second file plist).",
+            _FN_NOTE, "DESIGN.md 4.11, 5 (C09)", "functional"),
+    "C12": ("exploration",
+            "TLA+ write-once map Functional.tla validated by TLC over (format, document) -> abstract value before and after "
+            "print -> reload; domain predicates per format in the generator",
+            "Generated documents inside the stated domains (JSON/JSON5/CSV whole value domain incl. controls, astral "
+            "characters, extreme numbers, quoting characters; YAML/plist/XML alphanumeric incl. YAML-reserved words) are "
+            "loaded, printed by their own formatter, reloaded by the same loader; the abstract value must not change and "
+            "the reload must not fail. The family fits this property least (encode/decode fidelity is inside third-party "
+            "libraries); claimed at the lowest level.", _FN_NOTE, "DESIGN.md 4.11, 5 (C12)", "functional"),
+})
+
 NOT_YET = "check not built yet in this round (planned: see DESIGN.md section 5)"
 
 ENGINES = [
+    {"name": "functional", "path": "spec/Functional.tla spec/FunctionalMC.tla spec/FunctionalTrace.tla harness/functional.py "
+                                  "props/c07.py props/c08.py props/c09.py props/c12.py",
+     "serves_properties": ["C07", "C08", "C09", "C12", "C14"],
+     "kind_free_text": "write-once register specification; TLC validates groups of observations of the real code"},
     {"name": "assign", "path": "spec/Assign.tla spec/AssignGen.tla spec/AssignTrace.tla props/c15.py", "serves_properties": ["C15"],
      "kind_free_text": "TLC-enumerated weight tables, brute-force optimum evaluated by TLC on real results"},
     {"name": "builder", "path": "spec/Builder.tla spec/BuilderGen.tla spec/BuilderTrace.tla props/c18.py", "serves_properties": ["C18"],
